@@ -470,7 +470,7 @@ def run_polars_histories(rep, rng, n):
 
 def run(tier, replay=None):
     rep = Report(PROP, tier)
-    regenerate(("skeletons",))
+    regenerate(("skeletons", "schemamutation"))
     rep.audit = audit(PROP, MODULES)
     rep.audit["modules"] = MODULES
     rng = rng_for(PROP)
